@@ -32,9 +32,9 @@ def judge(chk, trace, mm):
         if m[2] == "aframe":
             which = [k for k in ("count", "range", "track") if not d[k]]
             chk.classify("aframe:" + "+".join(which), f"frame at {d['rate']} Hz: {which} n={d['n']} want={d['want']} writes={d['writes']} runs={str(d['runs'])[:200]}",
-                         run_of(trace, m[1]), extra=m)
+                         lambda m=m, trace=trace: run_of(trace, m[1]), extra=m)
         else:
-            chk.classify(m[2], f"{m[2]}: {d}", run_of(trace, m[1]), extra=m)
+            chk.classify(m[2], f"{m[2]}: {d}", lambda m=m, trace=trace: run_of(trace, m[1]), extra=m)
 
 
 def run(tier, seed):
